@@ -12,6 +12,7 @@ transitively (find_ref / find_load), never through a parent's tables directly; n
 stores are preceded by the emitted Namespace check; an unresolved load never leaks the
 ``missing`` sentinel; template identifiers reach Python identifiers unnormalised (finding).
 Also: the Namespace guard covers dotted references inside tuple targets of both set forms; a namespace owns a fresh dict; a macro parameter counts as bound only after its default was emitted.  
+Also: pop_assign_tracking writes the render context only on paths that decided frame.toplevel; visit_Name records stored names only in toplevel / loop / block frames.  
 Not decided: the load/alias decisions of Symbols on arbitrary program shapes.
 """
 
